@@ -4,6 +4,7 @@
 package kit
 
 import (
+	"strconv"
 	"encoding/binary"
 	"encoding/json"
 	"flag"
@@ -60,7 +61,19 @@ type ReplayFile struct {
 	Tree      string         `json:"tree,omitempty"`
 	Events    []simrt.Event  `json:"events,omitempty"`
 	Sample    any            `json:"history,omitempty"`
+	// Rarity the run was made under (see Rarity); a replay uses the same
+	Rarity int `json:"rarity,omitempty"`
 }
+
+var rarity = 1
+
+// Rarity is a factor by which a world divides the probability of its most
+// expensive rare scenarios (a world multiplies the arity of those draws by it).
+// It is 1 in the quick tier; the thorough tier, with a hundred times the runs,
+// raises it (environment variable SIM_RARITY) so that the number of such runs,
+// not their share, grows. It is recorded in every replay file and taken from
+// there on replay, so that a choice list keeps its meaning.
+func Rarity() int { return rarity }
 
 // Stats is what a worker process reports for its block of runs.
 type Stats struct {
@@ -113,6 +126,9 @@ func Main(w World) {
 		enumSize = flag.Bool("enumsize", false, "print the size of the enumerated part and exit")
 	)
 	flag.Parse()
+	if v, err := strconv.Atoi(os.Getenv("SIM_RARITY")); err == nil && v > 1 {
+		rarity = v
+	}
 	var enum [][]int
 	if w.Enum != nil && *replay == "" && *minimise == "" {
 		enum = w.Enum(*prop)
@@ -188,7 +204,7 @@ func Main(w World) {
 			}
 			seenSig[sig] = true
 			st.Failing = append(st.Failing, ReplayFile{Property: *prop, World: w.Name, Seed: *seed, Run: run,
-				Choices: rec.Log, Violation: v, LogHash: fmt.Sprintf("%016x", r.Hash), Steps: r.Steps})
+				Choices: rec.Log, Violation: v, LogHash: fmt.Sprintf("%016x", r.Hash), Steps: r.Steps, Rarity: rarity})
 		}
 		if len(st.Samples) < 2 && o.Sample != nil && (r.NonTrivial || o.NonTrivial) && run%7 == 3 {
 			st.Samples = append(st.Samples, o.Sample)
@@ -245,6 +261,9 @@ func loadReplay(path string) (*ReplayFile, error) {
 	var rf ReplayFile
 	if err := json.Unmarshal(b, &rf); err != nil {
 		return nil, err
+	}
+	if rf.Rarity > 0 {
+		rarity = rf.Rarity
 	}
 	return &rf, nil
 }
